@@ -147,6 +147,10 @@ def sort_unstable_nan(case, why):
 def argsort_all_missing(case, why):
     """F15: argsort of an option-type leaf array none of whose elements is valid returns an invalid layout
     (IndexedOptionArray index >= len(content))."""
+    import re
+    m = re.match(r"result of argsort fails validity: .*IndexedOptionArray.* \[root type: (.*)\]$", why)
+    if m and ("?" in m.group(1) or "option[" in m.group(1)):
+        return True          # the same defect met inside a history (C12)
     return (case.get("act") == "argsort" and _has_option(case.get("from"))
             and (why.startswith("tojson raised") or why.startswith("result fails validity")))
 
@@ -227,3 +231,81 @@ def slice_record_unreachable_content(case, why):
     applied to the unreachable entries, raising a spurious 'index out of range'."""
     return (case.get("act") == "slice" and _record_with_unreachable(case.get("from"))
             and "index out of range" in why and why.startswith("spec: value expected"))
+
+
+def sort_empty_string_array(case, why):
+    """F27: sort/argsort of a ZERO-LENGTH array whose elements are strings (directly or as an option/indexed of
+    strings) returns the empty character array: Content::sort ends with getitem_nothing()."""
+    if case.get("act") not in ("sort", "argsort") or case.get("len") != 0:
+        return False
+    ty = case.get("fromty", "")
+    return ty in ("string", "bytes", "option[string]", "option[bytes]") and \
+        (why.startswith("value differs") or why.startswith("result fails validity"))
+
+
+def argsort_strings_all_missing(case, why):
+    """F28: argsort of option-type strings where a whole group (list) holds no valid string: the empty string array
+    returned by ListOffsetArray::argsort_next(length 0) is wrapped back, giving [None, ...] typed option[string]
+    instead of the positions.  Matches only if every group that differs is all-None in the library's answer."""
+    import json
+    if case.get("act") != "argsort" or not why.startswith("value differs: library "):
+        return False
+    ty = case.get("fromty", "")
+    if "option[string]" not in ty and "option[bytes]" not in ty:
+        return False
+    try:
+        got = json.loads(why[len("value differs: library "):])
+    except Exception:
+        return False
+    import replay
+    want = replay.vjson_to_py(case["exp"]["v"])
+
+    def ok(g, w):
+        if isinstance(w, list) and (not w or not isinstance(w[0], list)):
+            if not isinstance(g, list) or len(g) != len(w):
+                return False
+            return g == w or all(x is None for x in g)
+        if isinstance(w, list):
+            return isinstance(g, list) and len(g) == len(w) and all(ok(a, b) for a, b in zip(g, w))
+        return g == w
+    return ok(got, want)
+
+
+def argsort_option_strings_positions(case, why):
+    """F29: argsort of option-type strings reports the valid strings by their position among the VALID ones (the
+    shifts that account for missing values are ignored by the string branch of ListOffsetArray::argsort_next):
+    argsort([None, ""]) gives [0, 0] instead of [1, 0].  Matches only if the library's answer is exactly what that
+    defect produces from the expected answer."""
+    import json
+    import replay
+    if case.get("act") != "argsort" or not why.startswith("value differs: library "):
+        return False
+    ty = case.get("fromty", "")
+    if "option[string]" not in ty and "option[bytes]" not in ty:
+        return False
+    try:
+        got = json.loads(why[len("value differs: library "):])
+        val = replay.abstract_to_list(case["from"])
+    except Exception:
+        return False
+    want = replay.vjson_to_py(case["exp"]["v"])
+
+    def ok(g, w, v):
+        if isinstance(v, list) and (not v or not isinstance(v[0], list)) and all(x is None or isinstance(x, str) for x in v):
+            if not isinstance(g, list) or not isinstance(w, list) or len(g) != len(w):
+                return False
+            nones = [p for p, x in enumerate(v) if x is None]
+            model = [p if v[p] is None else p - sum(1 for q in nones if q < p) for p in w]
+            return g == model or g == w
+        if isinstance(v, list):
+            return isinstance(g, list) and isinstance(w, list) and len(g) == len(w) == len(v) and all(ok(a, b, c) for a, b, c in zip(g, w, v))
+        return g == w
+    return ok(got, want, val)
+
+
+def sort_records_invalid(case, why):
+    """F31: sort/argsort of an array that contains records returns an invalid layout (RecordArray::sort_next wraps each
+    sorted field in a RegularArray of the wrong size)."""
+    import re
+    m = re.match(r"result of (arg)?sort fails validity: .* \[root type: (.*)\]$", why)
+    return bool(m) and ("{" in m.group(2) or "(" in m.group(2))
